@@ -1,0 +1,11 @@
+// +build verif
+
+package tcp
+
+// VerifSynRcvdCount reports the process-global number of endpoints in
+// SYN-RCVD state; a simulated run must leave it at zero.
+func VerifSynRcvdCount() uint64 {
+	synRcvdCount.Lock()
+	defer synRcvdCount.Unlock()
+	return synRcvdCount.value
+}
